@@ -157,6 +157,7 @@ def getSet (es : List Edge) (st : PassSt) (v : Nat) : Option (List Nat × PassSt
 
 /-- `targetsAreOrdered(graph, a, b, cache)` -/
 def targetsOrdered (es : List Edge) (st : PassSt) (a b : Nat) : Option (Bool × PassSt) :=
+  if a == b then some (true, st) else      -- `if a.GetLabel() == b.GetLabel() { return true }`
   match getSet es st a with
   | none => none
   | some (sa, st1) =>
